@@ -18,7 +18,7 @@ from irsx.engine import Extract
 from irsx.smat import M, vars_, ZERO, ONE
 from . import groups as G_
 from .common import guarded, Results, prove_pairs, ok_paths
-from .lie import Fn, mat_pairs, vec_pairs, tangent_sampler, subst_fn, series_pairs, signvars, rounding_standin
+from .lie import Fn, mat_pairs, vec_pairs, tangent_sampler, subst_fn, series_pairs, signvars, rounding_standin, zero_rotation_clause
 from .c02 import pick_path
 from .c04 import closed_for_small
 
@@ -92,6 +92,7 @@ def run_group(gname, s, tier="quick", seed=0, canary=False):
                 continue
             for k, p in enumerate(pt):
                 series_pairs(res, "%s::%s/taylor/p%d" % (tag, hn, k), mat_pairs(Hmat(p), Hmat(pc)), G, (TOL if s == "d" else TOL_F), call=f.call(), pv=p)
+                zero_rotation_clause(res, "%s::%s/at-zero-rotation/p%d" % (tag, hn, k), [x for (_, _, x) in Hmat(p).flat()], G, f.call(), p, ctol=1e-7 if s == "d" else 1e-4)
             edge = [v for v in f.views if v.status == "ok" and v.cls in ("edge",)]
             if edge:
                 res.unverified.append("%s::%s: %d measure-zero path(s) with |a_rot|^2 == eps2 exactly" % (ct, hn, len(edge)))
